@@ -104,9 +104,21 @@ def _post(snap, result, exc, args, kwargs):
     # ---- slices ----------------------------------------------------------
     db = args[0].__dict__.get("dot_bracket")
     if db is None:
-        if pairs:
-            rec.undecided("strands.slices", "no cached dot_bracket")
-        return
+        # elements did not leave the notation on the object: take the structure's
+        # dot-bracket from a fresh copy (same deterministic solver, same answer)
+        if not pairs:
+            text0 = "." * n
+        else:
+            try:
+                text0 = mon2d.make_bpseq(n, pairs, f["seq"]).dot_bracket.structure
+            except Exception:
+                rec.undecided("strands.slices", "dot_bracket of a fresh copy raised")
+                return
+
+        class _T:
+            structure = text0
+
+        db = _T
     seq, text = f["seq"], db.structure
     allstr = []
     for s in stems:
